@@ -192,6 +192,34 @@ def dirfill_history(rng, fs, cap_hint):
     ops.append(f"P~NEW3{ext}~F-2~U~~")
     return ';'.join(ops)
 
+def slotfill_history(rng, fs, n):
+    """files with names of the greatest length stored one after the other, each read back at once (directory entries that straddle a
+    block boundary, stale entry tails); at every tenth file count one file is deleted, one renamed to another long name and one
+    stored again, so that a count at which the last entry sits alone in a directory block is passed in both directions"""
+    cfg = FS[fs]
+    ops = []
+    def nm(tag, i):
+        base = f"{tag}{i}"
+        base = base + 'X' * (cfg['maxname'] - len(base))
+        return base + ('.DAT' if cfg['ext'] else '')
+    live = []
+    for i in range(n):
+        ops.append(f"P~{nm('F', i)}~0~{rng.choice(['1', '100', '255'])}~~~v")
+        live.append(nm('F', i))
+        if len(live) % 10 == 0 or len(live) in (19, 39, 59):
+            v = live[len(live) // 2]
+            ops.append(f"D~{v}")
+            live.remove(v)
+            ops.append(f"D~{live[-1]}")          # the last entry goes, then comes back
+            last = live.pop()
+            ops.append(f"P~{last}~0~77~~~v")
+            live.append(last)
+            ops.append(f"R~{live[-1]}~{nm('R', i)}")
+            live[-1] = nm('R', i)
+            ops.append(f"P~{v}~0-1~33~~~v")
+            live.append(v)
+    return ';'.join(ops)
+
 DIR_CAPS = {'dos33': 105, 'dos32': 84, 'prodos': 51, 'pascal': 77, 'fat': None, 'cpm2': None, 'cpm3': None}
 
 
